@@ -3,7 +3,7 @@
    that timeout: the shot returns, reports one sample carrying the DeadlineExceeded status, and the instance goes on
    with the next ammo.  Statements only; proofs in Proofs/RobustGrpcTimeProofs.v. *)
 From Coq Require Import List ZArith NArith Bool.
-From PV Require Import Model.Robust Model.RobustGrpcTime Model.GrpcStatus Proofs.RobustGrpcTimeProofs.
+From PV Require Import Model.Robust Model.RobustGrpcScn Model.RobustGrpcTime Model.GrpcStatus Proofs.RobustGrpcTimeProofs.
 Import ListNotations.
 Local Open Scope N_scope.
 
@@ -58,6 +58,30 @@ Theorem C19_grpc_context_without_deadline_refuted : forall conv cx conf pre post
 Proof. exact no_deadline_stuck. Qed.
 Print Assumptions C19_grpc_context_without_deadline_refuted.
 
+(* the grpc/scenario gun (its shootStep has its own copy of the code): any scenario of calls, any target behaviour per
+   call: the shot returns within (number of calls) x timeout, and its samples are those of the untimed scenario gun
+   (Model/RobustGrpcScn.v, C19_grpc_scenario_total) on the statuses `result_of` gives *)
+Theorem C19_grpc_scenario_returns_in_time : forall conv conf cs,
+  exists ss el, scenario_timed conv code_ctx conf cs = (ss, el, false) /\
+                el <= N.of_nat (length cs) * effective_timeout conf /\
+                grpc_scn_shoot (map (gstep_of conv conf) cs) = Returned ss.
+Proof. exact scenario_timed_returns. Qed.
+Print Assumptions C19_grpc_scenario_returns_in_time.
+
+(* a call of a scenario met with silence: one DeadlineExceeded sample at the timeout, and the NEXT call follows *)
+Theorem C19_grpc_scenario_silent_call_goes_on : forall conv conf b r,
+  (match b with GbNever => True | GbAnswer t _ => effective_timeout conf <= t end) ->
+  scenario_timed conv code_ctx conf (GcCall b :: r) =
+  (let '(ss, el, stuck) := scenario_timed conv code_ctx conf r in
+   (tsample (conv deadline_exceeded) :: ss, effective_timeout conf + el, stuck)).
+Proof. exact scenario_silent_call_goes_on. Qed.
+Print Assumptions C19_grpc_scenario_silent_call_goes_on.
+
+Theorem C19_grpc_scenario_context_without_deadline_refuted : forall conv cx conf r, has_timeout cx = false ->
+  scenario_timed conv cx conf (GcCall GbNever :: r) = ([], 0, true).
+Proof. exact scenario_no_deadline_stuck. Qed.
+Print Assumptions C19_grpc_scenario_context_without_deadline_refuted.
+
 (* non-vacuity: timeout 400 ms; OK at once, silence, an answer 2.5 s late, Unavailable after 50 ms, unknown method:
    five samples 200 504 504 503 0 after 400+400+50 ms; the same history with the metadata hung on the instance context:
    one sample, stuck *)
@@ -69,5 +93,7 @@ Example C19_example_grpc_silence :
   /\ instance_timed conv_code (CxWithMD CxGun) 400
     [GcCall (GbAnswer 0 0); GcCall GbNever; GcCall (GbAnswer 2900 0); GcCall (GbAnswer 50 14); GcNoMethod]
   = ([tsample 200], 0, true)
-  /\ effective_timeout 0 = 15000.
+  /\ effective_timeout 0 = 15000
+  /\ scenario_timed conv_code code_ctx 400 [GcCall GbNever; GcCall (GbAnswer 10 13); GcBadPayload; GcCall (GbAnswer 0 0)]
+     = ([tsample 504; tsample 500; tsample 400], 410, false).
 Proof. vm_compute. repeat split. Qed.
